@@ -88,6 +88,7 @@ func genScript(seed int64, n int, T uint32) []sop {
 }
 
 type runCfg struct {
+	hip       atree.HashInputProvider // nil = injective hx.HashInput
 	T         uint32
 	workers   int
 	nondet    bool
@@ -133,6 +134,10 @@ func runScript(ops []sop, cfg runCfg) (out runOut) {
 			out.err = fmt.Sprintf("panic: %v", r)
 		}
 	}()
+	hip := cfg.hip
+	if hip == nil {
+		hip = hx.HashInput
+	}
 	ledger := hx.NewLedger()
 	ledger.Jitter = cfg.jitter
 	ps := hx.NewStorage(ledger)
@@ -253,13 +258,13 @@ func runScript(ops []sop, cfg runCfg) (out runOut) {
 				dispose(old)
 			}
 		case "mset":
-			old, err := mp.Set(hx.CompareKey, hx.HashInput, op.k, op.v)
+			old, err := mp.Set(hx.CompareKey, hip, op.k, op.v)
 			o = obsErr(err) + " " + render(old)
 			if err == nil && old != nil {
 				dispose(old)
 			}
 		case "mrem":
-			k, v, err := mp.Remove(hx.CompareKey, hx.HashInput, op.k)
+			k, v, err := mp.Remove(hx.CompareKey, hip, op.k)
 			o = obsErr(err) + " " + render(k) + " " + render(v)
 			if err == nil {
 				dispose(v)
@@ -279,7 +284,7 @@ func runScript(ops []sop, cfg runCfg) (out runOut) {
 	if err := atree.VerifyArray(arr, hx.MkAddr(1), hx.TI(1), func(a, b atree.TypeInfo) bool { return a == b }, hx.HashInput, true); err != nil {
 		out.err = "VerifyArray: " + err.Error()
 	}
-	if err := atree.VerifyMap(mp, hx.MkAddr(2), hx.TI(2), func(a, b atree.TypeInfo) bool { return a == b }, hx.HashInput, true); err != nil {
+	if err := atree.VerifyMap(mp, hx.MkAddr(2), hx.TI(2), func(a, b atree.TypeInfo) bool { return a == b }, hip, true); err != nil {
 		out.err = "VerifyMap: " + err.Error()
 	}
 	if err := commit(false); err != nil {
@@ -321,7 +326,13 @@ func determStream(cfg *Config) *hx.Stats {
 		T := []uint32{256, 1024, 512}[p%3]
 		atree.VerifSetThreshold(T)
 		script := genScript(cfg.Seed*1000+int64(p), 300, T)
-		ref := runScript(script, runCfg{T: T, workers: 1})
+		// every second program hashes keys non-injectively: genuine multi-level collisions, computed
+		// by the library's pooled digesters (pool reuse must not influence the registers)
+		var hip atree.HashInputProvider
+		if p%2 == 1 {
+			hip = hx.HashInputBucket
+		}
+		ref := runScript(script, runCfg{T: T, workers: 1, hip: hip})
 		if ref.err != "" {
 			viol(p, "reference run failed: "+ref.err)
 			continue
@@ -329,6 +340,15 @@ func determStream(cfg *Config) *hx.Stats {
 		st.Programs++
 		st.Ops += len(script)
 		distinct[regsHash(ref.regs)] = true
+		// disturb the process-wide digester pool between runs: another map, other keys
+		disturb := func(k int) {
+			s := hx.NewStorage(hx.NewLedger())
+			m, _ := atree.NewMap(s, hx.MkAddr(7), atree.NewDefaultDigesterBuilder(), hx.TI(9))
+			for i := 0; i < 40; i++ {
+				_, _ = m.Set(hx.CompareKey, hx.HashInputBucket, hx.TV{Size: 9, Pay: uint64(k*1000 + i)}, hx.TV{Size: 5, Pay: 1})
+			}
+			runtime.GC()
+		}
 		for _, procs := range []int{1, 4, 16} {
 			runtime.GOMAXPROCS(procs)
 			for _, workers := range []int{1, 2, 3, 8, 64} {
@@ -337,7 +357,8 @@ func determStream(cfg *Config) *hx.Stats {
 						if jitter && workers == 1 {
 							continue
 						}
-						o := runScript(script, runCfg{T: T, workers: workers, nondet: nondet, jitter: jitter})
+						disturb(workers)
+						o := runScript(script, runCfg{T: T, workers: workers, nondet: nondet, jitter: jitter, hip: hip})
 						st.Hit(fmt.Sprintf("procs=%d", procs))
 						st.Hit(fmt.Sprintf("workers=%d", workers))
 						label := fmt.Sprintf("GOMAXPROCS=%d workers=%d nondet=%v jitter=%v", procs, workers, nondet, jitter)
@@ -400,7 +421,11 @@ func determChild(cfg *Config) *hx.Stats {
 	}
 	atree.VerifSetThreshold(T)
 	script := genScript(cfg.Seed, 300, T)
-	o := runScript(script, runCfg{T: T, workers: 2})
+	var hip atree.HashInputProvider
+	if cfg.Seed%2 == 1 {
+		hip = hx.HashInputBucket
+	}
+	o := runScript(script, runCfg{T: T, workers: 2, hip: hip})
 	fmt.Println("CHILDHASH " + regsHash(o.regs) + " " + o.err)
 	st := hx.NewStats("determchild", cfg.Seed)
 	st.Programs = 1
